@@ -9,17 +9,17 @@ import (
 
 // rewrite modes (each makes exactly one header of the encoding deviate)
 const (
-	rwLeadZero    = iota // long-form length with one leading zero byte
-	rwLeadZeros          // long-form length padded to 8 bytes with zeros
-	rwLongShort          // long form (1 length byte) for a payload < 56
-	rwLongShort0         // long form with 2 length bytes 00 nn for a payload < 56
-	rwSingleWrap         // single byte < 0x80 wrapped as 0x81 b
-	rwSingleLong         // single byte < 0x80 as 0xb8 0x01 b
-	rwSizePlus1          // announced size one larger than the content
-	rwSizeMinus1         // announced size one smaller than the content
-	rwHuge32             // announced size 2^32 (content unchanged)
-	rwHuge64             // announced size 2^64-1 (content unchanged)
-	rwFlipKind           // string header turned into list header of the same size and vice versa
+	rwLeadZero   = iota // long-form length with one leading zero byte
+	rwLeadZeros         // long-form length padded to 8 bytes with zeros
+	rwLongShort         // long form (1 length byte) for a payload < 56
+	rwLongShort0        // long form with 2 length bytes 00 nn for a payload < 56
+	rwSingleWrap        // single byte < 0x80 wrapped as 0x81 b
+	rwSingleLong        // single byte < 0x80 as 0xb8 0x01 b
+	rwSizePlus1         // announced size one larger than the content
+	rwSizeMinus1        // announced size one smaller than the content
+	rwHuge32            // announced size 2^32 (content unchanged)
+	rwHuge64            // announced size 2^64-1 (content unchanged)
+	rwFlipKind          // string header turned into list header of the same size and vice versa
 	rwModes
 )
 
